@@ -210,7 +210,7 @@ type c03argued struct {
 func (x *c03ctx) panicCondition(p *ssa.Panic) (inner []c03atom, atoms []c03atom) {
 	cls := x.e.factsAtBlock(p.Block())
 	if len(cls) > 0 {
-		inner = cls[0].atoms
+		inner = x.e.inlineInner(cls[0].atoms, 0)
 	}
 	for _, cl := range cls {
 		if len(cl.atoms) == 1 && cl.atoms[0].paramRooted() {
@@ -271,6 +271,13 @@ func (x *c03ctx) k1pair(owner *ssa.Function, inner, atoms []c03atom, stab []ssa.
 				break
 			}
 			fail = "caller does not establish " + na.pretty() + " (" + pr.how + ")"
+		}
+	}
+	if proved == "" && args != nil && owner == p.Parent() {
+		// the guard is not a plain fact about the parameters (a phi, a predicate call, a disjunction): decide it
+		// for the arguments of this call
+		if how, ok := x.k1siteRefute(p, s, args); ok {
+			proved = how
 		}
 	}
 	if proved != "" {
